@@ -449,7 +449,7 @@ def xx(p):
             # this is a cone
             tana = (p[1] - p[3]) / (p[0] - p[2])  # half-angle tan
             x0 = p[0] - p[1]/tana
-            nappe = 1 if x0 < p[0] else -1
+            nappe = 1 if 2 * x0 < p[0] + p[2] else -1
             return _cone(x0, 0, 0, abs(tana), 1, 0, 0, nappe)
     else:
         raise NotImplementedError('Not implemented for more than 2 pairs of '
@@ -477,7 +477,7 @@ def yy(p):
             # this is a cone
             tana = (p[1] - p[3]) / (p[0] - p[2])  # half-angle tan
             y0 = p[0] - p[1]/tana
-            nappe = 1 if y0 < p[0] else -1
+            nappe = 1 if 2 * y0 < p[0] + p[2] else -1
             return _cone(0, y0, 0, abs(tana), 0, 1, 0, nappe)
     else:
         raise NotImplementedError('Not implemented for more than 2 pairs of '
@@ -505,7 +505,7 @@ def zz(p):
             # this is a cone
             tana = (p[1] - p[3]) / (p[0] - p[2])  # half-angle tan
             z0 = p[0] - p[1]/tana
-            nappe = 1 if z0 < p[0] else -1
+            nappe = 1 if 2 * z0 < p[0] + p[2] else -1
             return _cone(0, 0, z0, abs(tana), 0, 0, 1, nappe)
     else:
         raise NotImplementedError('Not implemented for more than 2 pairs of '
